@@ -458,3 +458,107 @@ def parser_scoping(O):
     W = dri.WithRep(O, rep())
     for ob in ("let", "loop", "repeat", "while"):
         C11.SCOPE_OBS[ob](W)
+
+
+# ------------------------------------------------------------------ parser: the statement built for each form
+
+def _same_value(a, b):
+    return a is not None and b is not None and a.root == b.root and a.path == b.path
+
+
+STATEMENT_FORMS = {
+    # form: (token prefix, Stmt variant, [(field index, sub-parser event suffix, which occurrence)])
+    "let": (("Let", "Ident", "Equal", "Semi"), "Let", [(1, "parse_expr", 0)]),
+    "loop": (("Loop", "LParen", "Ident", "Comma", "RParen", "Eol"), "Loop", [(1, "parse_expr", 0), (2, "parse_stmt_block", 0)]),
+    "while": (("While", "LParen", "RParen", "Eol"), "While", [(0, "parse_expr", 0), (1, "parse_stmt_block", 0)]),
+    "repeat": (("Repeat", "LParen", "RParen"), "Loop", [(1, "parse_expr", 0)]),
+    "resetRandom": (("ResetRandom", "Semi"), "ResetRandom", []),
+}
+
+
+def _reg_statement(form):
+    fixed, variant, subs = STATEMENT_FORMS[form]
+
+    @obligation("C01/parser-statements[%s]" % form, profiles=("dev",),
+                desc="parser arm for `%s` (sub-parsers as events): whenever the statement is accepted the block holds exactly one "
+                     "statement, of kind %s, built from exactly what the sub-parsers returned (bound / condition / initialiser / "
+                     "body unchanged%s)" % (form, variant, "; a repeat is a loop over the one row with the implicit counter n, "
+                                                            "whatever its bound" if form == "repeat" else ""))
+    def _ob(O, form=form, fixed=fixed, variant=variant, subs=subs):
+        from . import C09, C11
+        from ..itermodels import str_id, _str_node
+        R = rep()
+        m, eng, ts, paths = C09.explore_block(O, 0, None, None, 1, keep=C11.SCOPE_KEEP, fixed=fixed,
+                                              keep_outcomes=lambda oc: oc in ("return", "cut", "panic"))
+        nok = 0
+        for p in paths:
+            eng.focus(p)
+            if p.outcome != "return":
+                continue
+            rt = eng.tag_of(p.ret, None)
+            r, _ = O.solve(list(p.pc) + [rt == bv64(0)], want_model=False)
+            if r != "sat":
+                continue
+            nok += 1
+            ok = [rt == bv64(0)]
+            blk = vec_slice(eng, eng.field(eng.downcast(p.ret, "Ok"), 0))
+            ln = z3.simplify(eng.length(blk))
+            if not z3.is_bv_value(ln) or ln.as_long() != 1 or not blk.elems:
+                R.fail(O, p, "`%s` puts %s statements into the block instead of one" % (form, ln), extra=ok)
+                continue
+            st = blk.elems[0][1]
+            if not R.prove(O, p, eng.tag_of(st, None) == bv64(m.vidx("Stmt", variant)),
+                           "`%s` is parsed into a %s statement" % (form, variant), extra=ok):
+                continue
+            pay = eng.downcast(st, variant)
+            bad = None
+            for fidx, suffix, occ in subs:
+                evs = [e for e in p.calls() if e.norm.endswith(suffix)]
+                if len(evs) <= occ:
+                    bad = "no %s call" % suffix
+                    break
+                want = eng.field(eng.downcast(evs[occ].ret, "Ok"), 0)
+                got = eng.field(pay, fidx)
+                if not _same_value(got, want):
+                    bad = "field %d of the statement is not what %s returned" % (fidx, suffix)
+                    break
+            if bad is None and form == "repeat":
+                inner = vec_slice(eng, eng.field(pay, 2))
+                il = z3.simplify(eng.length(inner))
+                rows = [e for e in p.calls() if e.norm.endswith("parse_data_row")]
+                if not z3.is_bv_value(il) or il.as_long() != 1 or not inner.elems or len(rows) != 1:
+                    bad = "the repeat loop does not hold exactly the one row"
+                else:
+                    row = inner.elems[0][1]
+                    if not R.prove(O, p, eng.tag_of(row, None) == bv64(m.vidx("Stmt", "DataRow")), "repeat body is the data row", extra=ok):
+                        continue
+                    if not _same_value(eng.field(eng.downcast(row, "DataRow"), 0), eng.field(eng.downcast(rows[0].ret, "Ok"), 0)):
+                        bad = "the row inside the repeat loop is not what parse_data_row returned"
+                    else:
+                        # the counter's name: the String made from the literal "n"
+                        f0 = eng.field(pay, 0)
+                        mk = [e for e in p.trace if e.kind == "call" and e.ret is not None and e.ret.root == f0.root]
+                        lit_ = None
+                        if mk and mk[0].args:
+                            sn = _str_node(eng, mk[0].args[0])
+                            lit_ = sn.conc if isinstance(sn.conc, str) else None
+                        if lit_ != "n":
+                            bad = "the implicit counter of repeat is not made from the literal \"n\" (%r)" % (lit_,)
+            if bad:
+                R.fail(O, p, "`%s`: %s" % (form, bad), extra=ok)
+        if nok == 0:
+            O.inconclusive("vacuous: the statement is never accepted")
+        O.note("%d paths, %d accepting" % (eng.npaths, nok))
+    return _ob
+
+
+for _f in STATEMENT_FORMS:
+    _reg_statement(_f)
+
+
+@obligation("C01/variables-first", profiles=("dev",),
+            desc="EvalContext::get: a name bound by let / loop / repeat is read from the variable frames, whatever the device "
+                 "reports for an output of the same name (the environment the rows are evaluated in is the program's)")
+def variables_first(O):
+    from . import C04
+    C04.ctx_get(O, rep())
